@@ -1791,6 +1791,14 @@ class Engine:
             return self.seq_index(path, o.content, k)
         if isinstance(o, SymTuple) and isinstance(k, int):
             return self.seq_index(path, o.seq, k)
+        if isinstance(o, SStr) and isinstance(k, int):
+            t = o.term()
+            L = z3.Length(t)
+            ok = (L > k) if k >= 0 else (L >= -k)
+            if not self.branch(path, ok):
+                self.throw(path, "IndexError", "string index out of range")
+            idx = z3.IntVal(k) if k >= 0 else L + k
+            return SStr([Atom(z3.SubString(t, idx, 1), ("char", o, k))])
         if isinstance(o, SeqMap) and isinstance(k, int):
             L = z3.Length(o.seq_term)
             ok = (L > k) if k >= 0 else (L >= -k)
@@ -1813,7 +1821,7 @@ class Engine:
                 seq = self.PV.items(o.term) if tag == "ListV" else self.PV.titems(o.term)
                 return self.seq_index(path, seq, k)
             if tag == "StrV" and isinstance(k, int):
-                raise Unsupported("indexing a symbolic string")
+                return self.getitem(path, self.from_pv(self.U.strv(self.PV.s(o.term))), k, frame)
             if tag == "ExtV":
                 return self.ext_op(path, "operator.getitem", [o, k])
             self.throw(path, "TypeError", f"{tag} object is not subscriptable")
